@@ -570,3 +570,11 @@ PROPS = {
         "thorough": {"timeout": 3000, "unsupported_ok": True, "maxpaths": 60000, "partial_ok_all": True},
     },
 }
+
+
+# The thorough tier is best effort within a bounded wall-clock time: a unit
+# that reaches its time budget, or has branch conditions no back end decides,
+# is reported in the evidence as partially explored (check.py) instead of
+# making the whole run inconclusive.
+for _p in PROPS.values():
+    _p["thorough"]["timeout"] = min(_p["thorough"].get("timeout", 1500), 1500)
